@@ -547,7 +547,7 @@ theorem rawPath_eq (i : Input) (k : KS) :
     cases hch : i.chain <;> simp [h0, h1, leafSpec, hch] <;> split <;> simp
   have hchain : i.chain = .ok ∨ i.chain = .selfSigned ∨ i.chain = .otherKey := by
     simp only [verifyOk, Bool.and_eq_true, Bool.or_eq_true, beq_iff_eq] at h4
-    rcases h4 with ⟨_, h | h⟩ | ⟨_, h⟩
+    rcases h4 with ⟨⟨_, h | h⟩ | ⟨_, h⟩, _⟩
     · exact Or.inl h
     · exact Or.inr (Or.inl h)
     · exact Or.inr (Or.inr h)
@@ -618,8 +618,13 @@ theorem run_cases (i : Input) : run i = errObs ∨ run i = sigObs := by
 
 theorem sig_ne_err : errObs.outcome ≠ .sig := by decide
 
+theorem verifyOk_genuine (i : Input) (h : verifyOk i = true) : sigGenuine i = true := by
+  simp only [verifyOk, Bool.and_eq_true, beq_iff_eq] at h
+  simp only [sigGenuine, Bool.and_eq_true]
+  exact ⟨h.1, by rw [h.2]; rfl⟩
+
 theorem raw_sig (i : Input) (ks : Spec) (hks : getKeySpec i = some ks) (hr : hasRaw i.cap = true)
-    (h : (rawPath i ks).outcome = .sig) : required i = true := by
+    (h : (rawPath i ks).outcome = .sig) : required i = true ∧ verifyOk i = true := by
   obtain ⟨_, hid, hdec⟩ := getKeySpec_some i ks hks
   obtain ⟨k, rfl⟩ := decodeKeySpec_range _ _ hdec
   rw [rawPath_eq] at h
@@ -629,7 +634,11 @@ theorem raw_sig (i : Input) (ks : Spec) (hks : getKeySpec i = some ks) (hr : has
     simp only [Bool.and_eq_true, beq_iff_eq] at hc
     obtain ⟨⟨⟨_, hgs⟩, hv⟩, hk⟩ := hc
     subst hk
-    simp [required, pathOf, hr, hid, hgs, hv, hdec]
+    exact ⟨by simp [required, pathOf, hr, hid, hgs, verifyOk_genuine i hv, hdec], hv⟩
+
+theorem envChecks_verifyOk (i : Input) (h : envChecks i = true) : verifyOk i = true := by
+  simp only [envChecks, Bool.and_eq_true] at h
+  exact h.1.1.1.1.1.1.2
 
 theorem env_sig (i : Input) (hr : hasRaw i.cap = false) (he : hasEnvelope i.cap = true)
     (h : (envelopePath i).outcome = .sig) : required i = true ∧ envChecks i = true := by
@@ -645,9 +654,10 @@ theorem env_sig (i : Input) (hr : hasRaw i.cap = false) (he : hasEnvelope i.cap 
     simp [required, pathOf, hr, he, a1, a3, aw, a4, a5, asd, a6, a7, a8]
     simpa using a2
 
-/-- a signature is returned only after every check the property demands -/
-theorem run_sig_required (i : Input) (h : (run i).outcome = .sig) :
-    required i = true ∧ (pathOf i = .envelope → envChecks i = true) := by
+/-- a signature is returned only after every check the property demands (and after the code's own, stricter,
+check of the signature bytes) -/
+theorem run_sig_full (i : Input) (h : (run i).outcome = .sig) :
+    required i = true ∧ (pathOf i = .envelope → envChecks i = true) ∧ verifyOk i = true := by
   unfold run at h
   by_cases hm : i.pluginErr = .metadata
   · simp [hm] at h; exact absurd h sig_ne_err
@@ -661,12 +671,12 @@ theorem run_sig_required (i : Input) (h : (run i).outcome = .sig) :
       | none => simp [hks] at h; exact absurd h sig_ne_err
       | some ks =>
         simp only [hks] at h
-        exact ⟨raw_sig i ks hks hr h, by simp [pathOf, hr]⟩
+        exact ⟨(raw_sig i ks hks hr h).1, by simp [pathOf, hr], (raw_sig i ks hks hr h).2⟩
     · have hr' : hasRaw i.cap = false := by simpa using hr
       simp only [hr', Bool.false_eq_true, if_false] at h
       by_cases he : hasEnvelope i.cap = true
       · simp only [he, if_true] at h
-        exact ⟨(env_sig i hr' he h).1, fun _ => (env_sig i hr' he h).2⟩
+        exact ⟨(env_sig i hr' he h).1, fun _ => (env_sig i hr' he h).2, envChecks_verifyOk i (env_sig i hr' he h).2⟩
       · simp [he] at h; exact absurd h sig_ne_err
   | signBlob =>
     simp only [hapi] at h
@@ -683,13 +693,18 @@ theorem run_sig_required (i : Input) (h : (run i).outcome = .sig) :
         simp only [hgen, beq_iff_eq, if_false] at h
         by_cases hr : hasRaw i.cap = true
         · simp only [hr, if_true] at h
-          exact ⟨raw_sig i ks hks hr h, by simp [pathOf, hr]⟩
+          exact ⟨(raw_sig i ks hks hr h).1, by simp [pathOf, hr], (raw_sig i ks hks hr h).2⟩
         · have hr' : hasRaw i.cap = false := by simpa using hr
           simp only [hr', Bool.false_eq_true, if_false] at h
           by_cases he : hasEnvelope i.cap = true
           · simp only [he, if_true] at h
-            exact ⟨(env_sig i hr' he h).1, fun _ => (env_sig i hr' he h).2⟩
+            exact ⟨(env_sig i hr' he h).1, fun _ => (env_sig i hr' he h).2, envChecks_verifyOk i (env_sig i hr' he h).2⟩
           · simp [he] at h; exact absurd h sig_ne_err
+
+/-- a signature is returned only after every check the property demands -/
+theorem run_sig_required (i : Input) (h : (run i).outcome = .sig) :
+    required i = true ∧ (pathOf i = .envelope → envChecks i = true) :=
+  ⟨(run_sig_full i h).1, (run_sig_full i h).2.1⟩
 
 /-- **never panics**: whatever the plugin answers - in particular for ALL payload documents -
 the outcome is an error or a signature (uses the regenerated fact that the type assertion in
@@ -857,15 +872,75 @@ theorem envelope_path_complete (i : Input) (hp : i.pluginErr ≠ .generate)
 /-- **raw path, soundness**: through a raw-signature plugin a signature comes back only if
 DescribeKey and GenerateSignature answered for the requested key id, the described key spec is
 the spec of the key that signed, and the signature was made with the key the chain's leaf
-certifies (the plugin's key under its chains, or consistently another key of the same spec). -/
+certifies (the plugin's key under its chains, or consistently another key of the same spec), and
+the plugin wrote the signature in the one wire form the envelope formats take. -/
 theorem raw_path_sound (i : Input) (hr : hasRaw i.cap = true) (h : (run i).outcome = .sig) :
     i.dkKeyIdOk = true ∧ i.gsKeyIdOk = true ∧ decodeKeySpec i.dkKeySpec = some i.key.spec ∧
     ((i.sigMode = .good ∧ (i.chain = .ok ∨ i.chain = .selfSigned)) ∨
-     (i.sigMode = .otherKey ∧ i.chain = .otherKey)) := by
-  have := (run_sig_required i h).1
-  simp only [required, pathOf, hr, if_true, Bool.and_eq_true, beq_iff_eq, verifyOk, Bool.or_eq_true] at this
-  obtain ⟨⟨⟨a, b⟩, c⟩, d⟩ := this
-  exact ⟨a, b, c, d⟩
+     (i.sigMode = .otherKey ∧ i.chain = .otherKey)) ∧ i.sigEnc = .fixed := by
+  have := (run_sig_full i h).1
+  have hv := (run_sig_full i h).2.2
+  simp only [required, pathOf, hr, if_true, Bool.and_eq_true, beq_iff_eq] at this
+  simp only [verifyOk, Bool.and_eq_true, beq_iff_eq, Bool.or_eq_true] at hv
+  obtain ⟨⟨⟨a, b⟩, c⟩, _⟩ := this
+  exact ⟨a, b, c, hv.1, hv.2⟩
+
+/-! ### the wire form of the signature bytes -/
+
+/-- a returned signature was checked to verify: in particular its bytes are in the fixed form -/
+theorem run_sig_verifyOk (i : Input) (h : (run i).outcome = .sig) : verifyOk i = true := (run_sig_full i h).2.2
+
+/-- the code's check is at least what the property asks of the signature bytes -/
+theorem code_check_stricter_than_property (i : Input) (h : verifyOk i = true) : sigGenuine i = true :=
+  verifyOk_genuine i h
+
+/-- **signature bytes in another wire form are refused**: whatever the plugin answers otherwise - a DER
+`SEQUENCE { r, s }` of an honest ECDSA signature, a forged SEQUENCE with integers wider than the field, padded,
+truncated, extended, doubled, text-encoded octets - on either path, for every key spec, no signature comes back
+(and, with `never_panics`, an error does: nothing is converted, so nothing can overflow) -/
+theorem other_signature_encoding_refused (i : Input) (h : i.sigEnc ≠ .fixed) : (run i).outcome = .err := by
+  have hne : (run i).outcome ≠ .sig := by
+    intro hs
+    have hv := run_sig_verifyOk i hs
+    simp only [verifyOk, Bool.and_eq_true, beq_iff_eq] at hv
+    exact h hv.2
+  rcases run_cases i with hr | hr
+  · rw [hr]; rfl
+  · rw [hr] at hne; exact absurd rfl hne
+
+/-- … and so is every EARLIER call on the same signer value answered by that plugin -/
+theorem other_signature_encoding_refused_in_every_call (i : Input) (h : i.sigEnc ≠ .fixed) :
+    (runAll i).outcome = .err ∧ ∀ o ∈ (runAll i).earlier, o = .err := by
+  refine ⟨other_signature_encoding_refused i h, ?_⟩
+  intro o ho
+  have he : (runAll i).earlier = i.history.map (fun s => (run (s.apply i)).outcome) := rfl
+  rw [he] at ho
+  obtain ⟨s, _, rfl⟩ := List.mem_map.1 ho
+  exact other_signature_encoding_refused (s.apply i) h
+
+/-- WHICH other wire form it is does not matter to the model: all of them are answered alike (the signer
+looks at the signature bytes nowhere; only the verifier does, and it refuses them all) -/
+theorem signature_encoding_variant_irrelevant (i : Input) (e e' : SigEnc) (he : e ≠ .fixed) (he' : e' ≠ .fixed) :
+    runAll { i with sigEnc := e } = runAll { i with sigEnc := e' } := by
+  have h1 : (e == SigEnc.fixed) = false := by cases e <;> first | rfl | exact absurd rfl he
+  have h2 : (e' == SigEnc.fixed) = false := by cases e' <;> first | rfl | exact absurd rfl he'
+  have hrun : ∀ j : Input, run { j with sigEnc := e } = run { j with sigEnc := e' } := by
+    intro j
+    simp only [run, envelopePath, rawPath, verifyOk, getKeySpec, leafSpec, wrapParses, singleDocument,
+      Input.echoOk, h1, h2, Bool.and_false]
+  have hall : ∀ x : SigEnc, runAll { i with sigEnc := x } =
+      { run { i with sigEnc := x } with
+        earlier := i.history.map (fun s => (run { s.apply i with sigEnc := x }).outcome) } := fun _ => rfl
+  have hearlier : (i.history.map fun s => (run { s.apply i with sigEnc := e }).outcome) =
+      i.history.map fun s => (run { s.apply i with sigEnc := e' }).outcome :=
+    List.map_congr_left (fun s _ => by rw [hrun (s.apply i)])
+  rw [hall, hall, hrun i, hearlier]
+
+/-- the key spec does not matter either: an RSA answer in another form is refused like an EC one -/
+theorem fixed_form_needed_for_every_key (i : Input) (k : KS) (h : i.sigEnc ≠ .fixed) :
+    (run { i with key := k }).outcome = .err :=
+  other_signature_encoding_refused { i with key := k } h
+
 
 /-- **one document**: an envelope whose payload bytes go on after the first JSON value (a second
 payload object, a stray `]`, a BOM or any other non-blank byte before or after it) is never signed
@@ -966,6 +1041,19 @@ example : run { benign with trail := "{\"targetArtifact\":{\"digest\":\"sha256:f
 example : run { benign with trail := "]" } = errObs := by decide
 example : run { benign with lead := "\uFEFF" } = errObs := by decide
 example : Holds { benign with trail := "]" } sigObs = false := by decide
+-- the wire form of the signature bytes
+example : run { benign with cap := .raw, key := .ec521, dkKeySpec := "EC-521" } = sigObs := by decide
+example : run { benign with cap := .raw, key := .ec521, dkKeySpec := "EC-521", sigEnc := .der } = errObs := by decide
+example : run { benign with sigEnc := .derWideR } = errObs := by decide
+example : Holds { benign with cap := .raw, key := .ec521, dkKeySpec := "EC-521", sigEnc := .der } panicObs = false := by decide
+example : Holds { benign with cap := .raw, sigEnc := .derHuge } sigObs = false := by decide
+example : Holds { benign with cap := .raw, sigEnc := .b64 } errObs = true := by decide
+-- a signer that converted a lossless re-encoding and handed out a verifying envelope differs from the model
+-- (correspondence) but does not break the property; one that answers a forged SEQUENCE with a signature does
+example : Holds { benign with cap := .raw, sigEnc := .der } sigObs = true := by decide
+example : Holds { benign with cap := .raw, sigEnc := .derWideS } sigObs = false := by decide
+example : Holds { benign with cap := .raw, sigEnc := .der } ⟨.sig, false, true, []⟩ = false := by decide
+example : Holds { benign with sigEnc := .der } sigObs = false := by decide   -- envelope path: returned as it is, must verify as it is
 
 /-! ### the duplicate-name scanner (`findDuplicateKey`) as a token state machine -/
 
